@@ -3,6 +3,8 @@ package gobinlog_test
 // GTID family (C18, C19): the exported GTID / GTIDSet API called directly; one `case` line per call.
 
 import (
+	"strings"
+	"errors"
 	"bytes"
 	"encoding/binary"
 	"math/rand"
@@ -342,6 +344,31 @@ func gtidTexts(g replication.GTID, flavor string) M {
 	t1 := g.String()
 	m := M{"text": B(t1), "flavor": g.Flavor()}
 	p, err := replication.ParseGTID(flavor, t1)
+	if err == nil {
+		// texts that are refused - the same shape with other digits and one bad digit at the end, a cut one, an empty one -
+		// are parsed in between, and then the valid text once more: what a text parses to does not depend on what was
+		// parsed before
+		bad := []byte(t1)
+		for i, c := range bad {
+			if k := strings.IndexByte("0123456789abcdef0123456789ABCDEF", c); i < 36 && k >= 0 {
+				bad[i] = "123456789abcdef0"[k%16]
+			}
+		}
+		if len(bad) > 36 {
+			bad[35] = 'g'
+		}
+		for _, b := range []string{string(bad), t1[:len(t1)/2], "", strings.Replace(t1, "-", "", 1)} {
+			replication.ParseGTID(flavor, b)
+			replication.ParseSID(b)
+		}
+		p2, err2 := replication.ParseGTID(flavor, t1)
+		if err2 != nil || p2 != p {
+			p, err = p2, err2
+			if err == nil && p == g {
+				err = errors.New("the same text parsed to two different values")
+			}
+		}
+	}
 	if err != nil {
 		m["parseErr"], m["text2"], m["eq"] = true, B(nil), false
 	} else {
